@@ -289,6 +289,15 @@ pub fn eval(q: &mut Query<'_>, node: Node<'_, Syntax, u32, u32>, bias: Bias) -> 
             let mut base = DelayedEval::Node(base);
 
             while let (Some(op), Some(rhs)) = (it.next(), it.next()) {
+                #[cfg(feature = "verif")]
+                let verif_op = match *op.value() {
+                    OP_ADD => "+",
+                    OP_SUB => "-",
+                    OP_DIV => "/",
+                    OP_MUL | OP_IMPLICIT_MUL => "*",
+                    OP_POWER => "^",
+                    _ => "?",
+                };
                 let op = match *op.value() {
                     OP_ADD => add,
                     OP_SUB => sub,
@@ -300,6 +309,32 @@ pub fn eval(q: &mut Query<'_>, node: Node<'_, Syntax, u32, u32>, bias: Bias) -> 
 
                         let mut lhs =
                             base.eval(q, bias.with_acceleration_bias(rhs.is_acceleration()))?;
+
+                        #[cfg(feature = "verif")]
+                        {
+                            let mut v = lhs.clone();
+
+                            let result = match rhs.factor(&v.unit, &mut v.value) {
+                                Ok(true) => Ok(Numeric::new(v.value, rhs.clone())),
+                                Ok(false) => Err(Error::new(
+                                    *node.span(),
+                                    IllegalCast {
+                                        from: v.unit,
+                                        to: rhs.clone(),
+                                    },
+                                )),
+                                Err(CompoundError) => Err(Error::new(
+                                    *node.span(),
+                                    ConversionNotPossible {
+                                        from: v.unit,
+                                        to: rhs.clone(),
+                                    },
+                                )),
+                            };
+
+                            let target = Numeric::new(Rational::new(1, 1), rhs.clone());
+                            crate::verif::apply("to", &[&lhs, &target], &result);
+                        }
 
                         match rhs.factor(&lhs.unit, &mut lhs.value) {
                             Ok(true) => {}
@@ -334,6 +369,12 @@ pub fn eval(q: &mut Query<'_>, node: Node<'_, Syntax, u32, u32>, bias: Bias) -> 
 
                 let rhs = eval(q, rhs, bias)?;
                 let b = base.eval(q, bias)?;
+
+                #[cfg(feature = "verif")]
+                {
+                    let result = op(*node.span(), b.clone(), rhs.clone());
+                    crate::verif::apply(verif_op, &[&b, &rhs], &result);
+                }
 
                 base = DelayedEval::Numeric(op(*node.span(), b, rhs)?);
             }
@@ -433,6 +474,13 @@ pub fn eval(q: &mut Query<'_>, node: Node<'_, Syntax, u32, u32>, bias: Bias) -> 
 
             for node in arguments.children().skip_tokens() {
                 args.push(eval(q, node, bias)?);
+            }
+
+            #[cfg(feature = "verif")]
+            if let Some(builtin) = builtin(name) {
+                let result = builtin(*node.span(), args.clone());
+                let args = args.iter().collect::<Vec<_>>();
+                crate::verif::apply(name, &args, &result);
             }
 
             if let Some(builtin) = builtin(name) {
